@@ -12,20 +12,28 @@ untouched individual for indpb = 0, strategies > 0."""
 import array
 import math
 
+import numpy
+
 import tape as tapemod
 from lib import Case, fbits
 from deap import creator, tools
 
 ANCHORS = [("deap/tools/crossover.py", ["cxBlend", "cxSimulatedBinary", "cxSimulatedBinaryBounded", "cxESBlend"]),
            ("deap/tools/mutation.py", ["mutGaussian", "mutPolynomialBounded", "mutESLogNormal"])]
-LEVEL = "partial"
+LEVEL = "proof"
+STRENGTH = "partial"
+MIN_CASES = 20000
 RULE = ("grid: single-locus cases over genes {low, interior, up} x eta {0,1,20,1000} x bound pairs spanning "
-        "1e-6..1e6 x every combination of boundary draws {0, 2^-53, 0.5-2^-53, 0.5, 0.5+2^-53, 1-2^-53}; random: "
-        "1..8 loci, list / array('d') individuals, scalar / list / tuple / array bounds, genes on a bound, next to a "
+        "1e-6..1e6 x every combination of boundary draws {0, 2^-53, 0.5-2^-53, 0.5, 0.5+2^-53, 1-2^-53}; clamp stream: "
+        "bounded SBX / polynomial mutation with genes on or one ulp from a bound, bound pairs of unequal magnitude "
+        "(xl + (xu - xl) != xu), boundary draws, so that the value before `min(max(c, xl), xu)` leaves the bounds by "
+        "rounding (tag letters 1, 2 = clamp of child 1 / 2 fires, l, u = polynomial clamp fires below / above); alias: "
+        "crossover called with the same object twice (oracle only); random: 1..8 (sometimes 12..40) loci, list / "
+        "array('d') / numpy.ndarray individuals, scalar / list / tuple / array bounds, genes on a bound, next to a "
         "bound or inside, parents equal / within 1e-14 / one ulp apart at some loci, eta in {0,1,20,1000} or "
-        "uniform / log-uniform in [0,1000], alpha in [0,2], indpb in {0,1,random}, draws uniform or boundary values, "
-        "gauss values N(0,1) or +-8.57 (largest value random.gauss can return) or 0.  Non-trivial = at least "
-        "one locus takes a modifying branch (tag letters other than the skip letters g,e,-) or an error branch")
+        "uniform / log-uniform in [0,1000], alpha in [0,2], indpb in {0,1,random}, c in [0,50], draws uniform or "
+        "boundary values, gauss values N(0,1) or +-8.57 (largest value random.gauss can return) or 0.  Non-trivial = "
+        "at least one locus takes a modifying branch (tag letters other than the skip letters g,e,-) or an error branch")
 EXHAUSTIVE = {"quick": False, "thorough": False}
 TIME_BUDGET = {"quick": 60, "thorough": 900}
 TRUSTED = ["IEEE-754 binary64 / libm (pow, exp, sqrt) behave the same in CPython and in Lean's Float (both call "
@@ -33,21 +41,37 @@ TRUSTED = ["IEEE-754 binary64 / libm (pow, exp, sqrt) behave the same in CPython
            "the theorems are about exact reals: rounding, overflow to inf, underflow to 0.0, NaN propagation "
            "through min/max and Python's OverflowError / ZeroDivisionError / complex result of float ** are NOT "
            "exhibited by the model; the oracle looks for them on the implementation (isfinite, not complex, "
-           "exact bounds, strategies > 0) on every explored input",
+           "exact bounds, strategies > 0) on every explored input.  In particular, over the reals the final clamp "
+           "never fires (C10.sbxb_unclamped, C10.poly_unclamped): that the genes stay inside the bounds in IEEE "
+           "arithmetic rests on the oracle's exact `xl <= c <= xu` test, exercised by the clamp stream",
+           "the clause 'modify and return the objects they were given' rests on the harness's `is` tests (returned "
+           "individual is the input, its strategy list is the input's strategy list) on every explored call: the "
+           "model writes `{ ind with genes := .. }`, so the C10.*_in_place theorems hold by construction of the "
+           "model (they only add that lengths and the untouched fields are kept) and cannot express a returned copy",
            "harness/tape.py forcing of random.random / random.gauss (gauss(mu, sigma) returns mu + z*sigma for "
            "the forced standard-normal value z, as CPython's random.gauss does)"]
 ASSUMPTIONS = ["genes are finite doubles inside [low, up]; low < up, magnitudes and widths between 1e-6 and 1e6; "
                "eta in [0,1000]; alpha in [0,2]; indpb in [0,1]; random.random() returns a multiple of 2^-53 in "
                "[0,1); |random.gauss(0,1)| <= 8.57",
-               "the two individuals of a crossover (and their strategy lists) are distinct objects",
-               "ES strategies and sigma between 1e-6 and 1e6, learning parameter c in [0,10] (beyond that "
-               "exp underflow can turn a positive strategy into 0.0 — see report)",
-               "sum-conservation tolerance: 1e-9*max(|parents|,|children|), plus for cxSimulatedBinary "
-               "16*2^-53*(1+beta)*(|x1|+|x2|) because the code adds two products of size beta*|x|"]
+               "premise 'two individuals': the two arguments of a crossover (and their strategy lists) are distinct "
+               "objects — the model and the theorems assume it; a call with the same object twice is only run "
+               "through the oracle (stream `alias`), not through the model",
+               "ES strategies and sigma between 1e-6 and 1e6, learning parameter c in [0,50] (from c ~ 61 on, or for "
+               "subnormal strategies, exp underflow can turn a positive strategy into 0.0 and math.exp can raise "
+               "OverflowError under boundary gauss draws — outside the stated domain)",
+               "the sum clause is checked to rounding accuracy, not exactly: tolerance 1e-9*max(|parents|,|children|), "
+               "plus for cxSimulatedBinary 16*2^-53*(1+beta)*(|x1|+|x2|) because the code adds two products of size "
+               "beta*|x|; i.e. the sum of the children is checked relative to beta*|x|, which at eta = 0 and "
+               "rand = 1-2^-53 (beta = 2^52) is no constraint at all — for such draws the clause is established by "
+               "the theorem C10.sbx_sum and the model-vs-implementation comparison only",
+               "numpy.ndarray individuals: numpy scalars do not raise on division by zero / negative base (inf / nan "
+               "with a warning instead); inside the domain neither occurs"]
 EXPLANATION = ("Theorems C10.* are proved over the reals for all lengths, genes, bounds, parameters and draws; "
                "Core/RealOps.lean keeps the Python operation order so that its Float instance replays the real "
-               "operators draw by draw (correspondence); the level is partial because IEEE effects are only "
-               "searched for, not proved absent.")
+               "operators draw by draw (correspondence); the strength is partial because IEEE effects (in particular "
+               "the in-bounds clause, which over the reals needs no clamp) are only searched for, not proved absent, "
+               "and because object identity ('modify and return the objects they were given') is established by the "
+               "harness's `is` tests on the real objects, the model returning the same record by construction.")
 
 EPSM = 2.0 ** -53
 TOP = 1.0 - EPSM                      # largest value random.random() returns
@@ -60,9 +84,15 @@ ZMAX = 8.57                           # sqrt(-2 log 2^-53) = 8.5717…
 if not hasattr(creator, "C10List"):
     creator.create("C10List", list, strategy=None)
     creator.create("C10Array", array.array, typecode="d", strategy=None)
+    creator.create("C10Nd", numpy.ndarray, strategy=None)
 
 
 def mk_ind(cont, genes, strategy=None):
+    if cont == "ndarray":
+        ind = creator.C10Nd([float(g) for g in genes])
+        if strategy is not None:
+            ind.strategy = numpy.array([float(v) for v in strategy], dtype=float)
+        return ind
     ind = creator.C10List(genes) if cont == "list" else creator.C10Array(genes)
     if strategy is not None:
         ind.strategy = list(strategy) if cont == "list" else array.array("d", strategy)
@@ -162,7 +192,7 @@ def check_same(ret, given, what):
 def check_sum(name, a, b, c, d, extra=None):
     for i in range(min(len(a), len(b))):
         scale = max(abs(a[i]), abs(b[i]), abs(c[i]), abs(d[i]))
-        tol = 1e-9 * scale + (extra[i] if extra else 0.0)
+        tol = 1e-9 * scale + (extra[i] if extra else 0.0) + 1e-300     # 1e-300: rounding of subnormal genes
         if abs((c[i] + d[i]) - (a[i] + b[i])) > tol:
             return "%s: children sum %r differs from parents sum %r at locus %d" % (name, c[i] + d[i], a[i] + b[i], i)
     return None
@@ -172,7 +202,7 @@ def check_range(name, a, b, c, d, alpha):
     for i in range(min(len(a), len(b))):
         lo, hi = min(a[i], b[i]), max(a[i], b[i])
         w = hi - lo
-        tol = 1e-9 * max(abs(lo), abs(hi), alpha * w)
+        tol = 1e-9 * max(abs(lo), abs(hi), alpha * w) + 1e-300
         for v in (c[i], d[i]):
             if not (lo - alpha * w - tol <= v <= hi + alpha * w + tol):
                 return "%s: child %r outside [min - alpha*w, max + alpha*w] = [%r, %r] at locus %d" % (
@@ -197,9 +227,17 @@ def first(*msgs):
 # ---------------------------------------------------------------------------------------------
 # branch letters (tagging only)
 # ---------------------------------------------------------------------------------------------
+def _beta_q(rand, beta, eta):
+    alpha = 2.0 - beta ** -(eta + 1)
+    if rand <= 1.0 / alpha:
+        return (rand * alpha) ** (1.0 / (eta + 1))
+    return (1.0 / (2.0 - rand * alpha)) ** (1.0 / (eta + 1))
+
+
 def sbxb_letters(d, used):
     """g: every locus skipped by the gate / e: some locus skipped by the 1e-14 guard / x: some locus crossed /
-    B, D: the `rand > 1/alpha` branch taken for the first / second child / k: a child sits exactly on a bound"""
+    B, D: the `rand > 1/alpha` branch taken for the first / second child /
+    1, 2: the value of child 1 / child 2 before `min(max(c, xl), xu)` is outside [xl, xu] (the clamp fires)"""
     x1, x2, eta = d["x1"], d["x2"], d["eta"]
     n = min(len(x1), len(x2))
     lo, up = per_locus(d["low"], n), per_locus(d["up"], n)
@@ -213,20 +251,41 @@ def sbxb_letters(d, used):
                 out.add("e"); continue
             a, b = min(x1[i], x2[i]), max(x1[i], x2[i])
             rand = used[k]; k += 2
-            al1 = 2.0 - (1.0 + 2.0 * (a - lo[i]) / (b - a)) ** -(eta + 1)
-            al2 = 2.0 - (1.0 + 2.0 * (up[i] - b) / (b - a)) ** -(eta + 1)
+            be1 = 1.0 + (2.0 * (a - lo[i]) / (b - a))
+            be2 = 1.0 + (2.0 * (up[i] - b) / (b - a))
             out.add("x")
-            if not rand <= 1.0 / al1:
+            if not rand <= 1.0 / (2.0 - be1 ** -(eta + 1)):
                 out.add("B")
-            if not rand <= 1.0 / al2:
+            if not rand <= 1.0 / (2.0 - be2 ** -(eta + 1)):
                 out.add("D")
+            r1 = 0.5 * (a + b - _beta_q(rand, be1, eta) * (b - a))
+            r2 = 0.5 * (a + b + _beta_q(rand, be2, eta) * (b - a))
+            if not lo[i] <= r1 <= up[i]:
+                out.add("1")
+            if not lo[i] <= r2 <= up[i]:
+                out.add("2")
     except Exception:  # noqa  (tagging must never decide a verdict)
         out.add("?")
     return "".join(sorted(out)) or "g"
 
 
+def poly_site(x, xl, xu, eta, rand):
+    """l / u when the value before the final clamp of mutPolynomialBounded is below xl / above xu (tagging only)"""
+    try:
+        d1, d2 = (x - xl) / (xu - xl), (xu - x) / (xu - xl)
+        mp = 1.0 / (eta + 1.)
+        if rand < 0.5:
+            dq = (2.0 * rand + (1.0 - 2.0 * rand) * (1.0 - d1) ** (eta + 1)) ** mp - 1.0
+        else:
+            dq = 1.0 - (2.0 * (1.0 - rand) + 2.0 * (rand - 0.5) * (1.0 - d2) ** (eta + 1)) ** mp
+        y = x + dq * (xu - xl)
+        return "l" if y < xl else "u" if y > xu else ""
+    except Exception:  # noqa
+        return "?"
+
+
 def gate_letters(used_flags):
-    return "".join(sorted(set(used_flags))) or "-"
+    return "".join(sorted(set("".join(used_flags)))) or "-"
 
 
 # ---------------------------------------------------------------------------------------------
@@ -256,6 +315,59 @@ def ident(ret, objs):
 
 
 def evaluate(d):
+    try:
+        if d.get("alias"):
+            return evaluate_alias(d)
+        return _evaluate(d)
+    except (tapemod.TapeExhausted, tapemod.TapeMismatch) as e:
+        # the operator no longer draws what the model replays: a break of the correspondence, not a failing input
+        return Case(d, [], [], oracle="TAPE: operator asked for a draw the forced tape cannot give (%s: %s)"
+                    % (type(e).__name__, e), tag="%s/tape" % d.get("op"))
+
+
+def evaluate_alias(d):
+    """crossover called with the same object twice: outside the model's premise (two distinct individuals);
+    the clauses of the statement are evaluated on the real result only"""
+    op, cont = d["op"], d.get("cont", "list")
+    x = list(d["x1"])
+    n = len(x)
+    ind = mk_ind(cont, x, d.get("s1"))
+    so = getattr(ind, "strategy", None)
+    rs = d["rs"]
+    if op == "blend":
+        res, t = run(tools.cxBlend, rs, [], ind, ind, d["alpha"])
+    elif op == "sbx":
+        res, t = run(tools.cxSimulatedBinary, rs, [], ind, ind, d["eta"])
+    elif op == "sbxb":
+        res, t = run(tools.cxSimulatedBinaryBounded, rs, [], ind, ind, d["eta"], d["low"], d["up"])
+    else:
+        res, t = run(tools.cxESBlend, rs, [], ind, ind, d["alpha"])
+    if isinstance(res, str):
+        return Case(d, [], [], "implementation raised " + res, tag="%s/alias/%s" % (op, res))
+    orc = check_same(res, (ind, ind), op)
+    if orc is None:
+        c = list(ind)
+        orc = check_genes("child", c, n)
+    if orc is None and op in ("blend", "esblend"):
+        orc = first(check_sum(op, x, x, c, c), check_range(op, x, x, c, c, d["alpha"]))
+    if orc is None and op == "esblend":
+        s1 = list(d["s1"])
+        ts = list(ind.strategy)
+        orc = first(None if ind.strategy is so else "esblend: strategy list replaced",
+                    check_genes("strategy", ts, len(s1)), check_sum(op, s1, s1, ts, ts),
+                    check_range(op, s1, s1, ts, ts, d["alpha"]))
+    if orc is None and op == "sbx":
+        extra = []
+        for i, r in enumerate(t.used_r[:n]):
+            beta = (2.0 * r if r <= 0.5 else 1.0 / (2.0 * (1.0 - r))) ** (1.0 / (d["eta"] + 1.0))
+            extra.append(16 * EPSM * (1.0 + beta) * 2 * abs(x[i]))
+        orc = check_sum(op, x, x, c, c, extra)
+    if orc is None and op == "sbxb":
+        orc = check_bounds("child", c, per_locus(d["low"], n), per_locus(d["up"], n), n)
+    return Case(d, [], [], orc, tag="%s/alias/x" % op, nontrivial=n > 0)
+
+
+def _evaluate(d):
     op, cont = d["op"], d.get("cont", "list")
     cat = d.get("cat", "")
     edge = bool(d.get("edge"))          # outside the property's domain: correspondence only
@@ -362,15 +474,19 @@ def evaluate(d):
         if edge:
             orc = None
         # letters: - gate closed, L rand < 0.5, H rand >= 0.5
-        letters, k = [], 0
+        letters, k, i = [], 0, 0
         u = t.used_r
+        plo, pup = per_locus(d["low"], n), per_locus(d["up"], n)
         while k < len(u):
             if u[k] <= d["indpb"] and k + 1 < len(u):
                 letters.append("L" if u[k + 1] < 0.5 else "H")
+                if i < n:
+                    letters.append(poly_site(x[i], plo[i], pup[i], d["eta"], u[k + 1]))
                 k += 2
             else:
                 letters.append("-")
                 k += 1
+            i += 1
         exp = "ok %s %s 0" % (ident(res, (ind,)), flist(res[0]))
         letters = gate_letters(letters)
         return Case(d, [line], [exp], orc, tag="poly/%s/%s" % (cat, letters),
@@ -624,8 +740,8 @@ def grid(tier):
 
 def random_case(rng):
     op = rng.choice(["sbxb", "sbxb", "sbxb", "poly", "poly", "poly", "blend", "esblend", "sbx", "gauss", "logn"])
-    cont = "list" if rng.random() < 0.6 else "array"
-    n = rng.choice([1, 1, 2, 2, 3, 4, 5, 8])
+    cont = rng.choice(["list", "list", "list", "array", "array", "ndarray"])
+    n = rng.choice([1, 1, 2, 2, 3, 4, 5, 8]) if rng.random() < 0.93 else rng.choice([12, 17, 25, 40])
     edge_p = rng.choice([0.0, 0.0, 0.15, 0.5, 1.0])
     cat = "rand" if edge_p == 0 else "mix" if edge_p < 1 else "extreme"
     d = {"op": op, "cont": cont, "cat": cat}
@@ -686,14 +802,127 @@ def random_case(rng):
         d.update(mu=par(False), sigma=par(True), bk=rng.choice(["list", "tuple", "array"]),
                  zs=[rand_z(rng, edge_p) for _ in range(n)])
         return d
-    d.update(s=[rand_mag(rng) for _ in range(n)], c=rng.choice([1.0, 1.0, 0.5, 0.1, 0.01, 0.0, 2.0, 10.0, rng.uniform(0, 10)]),
+    d.update(s=[rand_mag(rng) for _ in range(n)], c=rng.choice([1.0, 1.0, 0.5, 0.1, 0.01, 0.0, 2.0, 10.0, rng.uniform(0, 10), rng.uniform(10, 50), 50.0]),
              zs=[rand_z(rng, edge_p) for _ in range(2 * n + 1)])
+    return d
+
+
+def uneven_bound_pair(rng):
+    """low < up of unequal magnitude, so that sums like x1 + x2, xl + (xu - xl) round"""
+    while True:
+        r = rng.random()
+        if r < 0.25:
+            lo, up = -rand_mag(rng), rand_mag(rng)
+        elif r < 0.5:
+            lo = rand_mag(rng) * rng.choice([1, -1])
+            up = lo + rand_mag(rng)
+        elif r < 0.65:
+            lo, up = 0.0, rand_mag(rng) * rng.uniform(1, 3)
+        elif r < 0.8:
+            lo, up = -rand_mag(rng) * rng.uniform(1, 3), 0.0
+        else:
+            lo, up = rng.choice(GRID_BOUNDS[1:5])
+        if lo < up and abs(lo) <= 1e6 and abs(up) <= 2e6:
+            return float(lo), float(up)
+
+
+def near_bound(rng, lo, up, side):
+    """a gene on the given bound, one / a few ulps inside, or a tiny fraction of the width inside"""
+    b, inward = (lo, True) if side == "lo" else (up, False)
+    r = rng.random()
+    if r < 0.5:
+        x = b
+    elif r < 0.7:
+        x = nxt(b, inward)
+    elif r < 0.8:
+        x = nxt(nxt(nxt(b, inward), inward), inward)
+    else:
+        x = b + (1 if inward else -1) * (up - lo) * rng.choice([1e-16, 1e-15, 1e-12, 1e-9])
+    return min(max(float(x), lo), up)
+
+
+def clamp_case(rng, op):
+    """inputs for which the value before `min(max(c, xl), xu)` tends to leave [xl, xu] by rounding"""
+    n = rng.choice([1, 1, 1, 2, 3])
+    ps = [uneven_bound_pair(rng) for _ in range(n)]
+    if rng.random() < 0.6:
+        ps = [ps[0]] * n
+        low, up, bk = ps[0][0], ps[0][1], "list"
+    else:
+        low, up, bk = [p[0] for p in ps], [p[1] for p in ps], rng.choice(["list", "tuple", "array"])
+    eta = rng.choice([0, 1, 2, 5, 20, 100, 1000, rng.uniform(0, 50), rng.uniform(0, 1000)])
+    d = {"op": op, "cat": "clamp", "cont": rng.choice(["list", "list", "array", "ndarray"]), "low": low, "up": up,
+         "bk": bk, "eta": eta}
+    edge = DRAW_EDGE + [TOP, TOP, 0.0]
+    if op == "poly":
+        side = rng.choice(["lo", "up", "up"])
+        if side == "up" and rng.random() < 0.5:       # upper bound small against the width: overshoot is not absorbed
+            w = rand_mag(rng) * rng.uniform(1, 3)
+            ps = [(-w, rng.choice([0.0, 0.0, 1e-6, w * 1e-9]))] * n
+            d.update(low=ps[0][0], up=ps[0][1], bk="list")
+        d["x"] = [near_bound(rng, lo, hi, side if rng.random() < 0.8 else rng.choice(["lo", "up"])) for lo, hi in ps]
+        d["indpb"] = 1.0
+        rs = []
+        for _ in range(n):
+            r = rng.random()
+            # the branch that moves towards the touched bound is the one that can overshoot it
+            rand = rng.choice(edge) if r < 0.35 else (rng.random() * 0.5 if side == "lo" else 0.5 + rng.random() * 0.5)
+            rs += [rng.random(), min(rand, TOP)]
+        d["rs"] = rs
+        return d
+    x1, x2 = [], []
+    for lo, hi in ps:
+        r = rng.random()
+        if r < 0.45:                       # parents on both bounds
+            a, b = near_bound(rng, lo, hi, "lo"), near_bound(rng, lo, hi, "up")
+        elif r < 0.7:                      # one parent on a bound, the other inside
+            a, b = near_bound(rng, lo, hi, "lo"), lo + (hi - lo) * rng.random()
+        elif r < 0.95:
+            a, b = lo + (hi - lo) * rng.random(), near_bound(rng, lo, hi, "up")
+        else:
+            a, b = rand_gene(rng, lo, hi), rand_gene(rng, lo, hi)
+        a, b = min(max(a, lo), hi), min(max(b, lo), hi)
+        if rng.random() < 0.5:
+            a, b = b, a
+        x1.append(a)
+        x2.append(b)
+    rs = []
+    for _ in range(n):
+        rand = rng.choice(edge) if rng.random() < 0.6 else rng.random()
+        rs += [rng.random() * 0.5, rand, rng.random()]
+    d.update(x1=x1, x2=x2, rs=rs)
+    return d
+
+
+def alias_case(rng):
+    op = rng.choice(["blend", "sbx", "sbxb", "esblend"])
+    n = rng.choice([1, 2, 3, 5])
+    lo, up = rand_bound_pair(rng)
+    x = [rand_gene(rng, lo, up) for _ in range(n)]
+    edge_p = rng.choice([0.0, 0.3, 1.0])
+    d = {"op": op, "alias": True, "cat": "alias", "cont": rng.choice(["list", "array", "ndarray"]), "x1": x,
+         "rs": [rand_draw(rng, edge_p) for _ in range(3 * n)]}
+    if op in ("blend", "esblend"):
+        d["alpha"] = rand_alpha(rng)
+    else:
+        d["eta"] = rand_eta(rng)
+    if op == "sbxb":
+        d.update(low=lo, up=up)
+    if op == "esblend":
+        d["s1"] = [rand_mag(rng) for _ in range(n)]
     return d
 
 
 def generate(tier, rng, mult):
     for d in grid(tier):
         yield d
+    thorough = tier == "thorough"
+    for _ in range((40000 if thorough else 4000) * mult):
+        yield clamp_case(rng, "sbxb")
+    for _ in range((40000 if thorough else 4000) * mult):
+        yield clamp_case(rng, "poly")
+    for _ in range((4000 if thorough else 400) * mult):
+        yield alias_case(rng)
     nrand = (500000 if tier == "thorough" else 30000) * mult
     for _ in range(nrand):
         yield random_case(rng)
